@@ -395,6 +395,10 @@ pub fn hostile_call(seed: u64, index: u64) -> Call {
             }
             Call::Uncompact(v, rng.below(5) as i32 - 1)
         }
+        11 if rng.chance(0.05) => {
+            // the empty list with every kind of target: "nothing to expand" must not skip the range check
+            Call::Uncompact(Vec::new(), gen::hostile_res(rng))
+        }
         11 => {
             let mut res = gen::hostile_res(rng);
             let n = 1 + rng.below(6) as usize;
